@@ -380,6 +380,12 @@ fn fallback_sequences(ctx: &Ctx) {
 /// kw (writes; handshake writes get 16 more, which snow asks for) / kr (reads) - the backends branch on the size
 /// of the output buffer, and what one backend accepts the other must accept too
 pub fn check_wire(p: &Proto, mode: Mode, slack: Option<(isize, isize)>) -> (Vec<(String, String, Config, Vec<Op>)>, u64) {
+    check_wire_with(p, mode, slack, false)
+}
+
+/// `scripted`: ephemeral keys are generated from the resolver's random source (a scripted stream) instead of being
+/// fixed: whichever member provides the DH function, the keys must come from the resolved random source
+pub fn check_wire_with(p: &Proto, mode: Mode, slack: Option<(isize, isize)>, scripted: bool) -> (Vec<(String, String, Config, Vec<Op>)>, u64) {
     let mut ops = ops_for(p, mode);
     if let Some((kw, kr)) = slack {
         ops = ops
@@ -397,6 +403,9 @@ pub fn check_wire(p: &Proto, mode: Mode, slack: Option<(isize, isize)>) -> (Vec<
     }
     let mut base = Config::honest(p, 0);
     base.crypto_oracle = false;
+    if scripted {
+        base.eph = [crate::exec::Eph::Scripted(21), crate::exec::Eph::Scripted(1021)];
+    }
     let reference = Exec::run(&base, &ops);
     let mut v = vec![];
     if !reference.steps.iter().all(|s| s.real.is_ok()) {
@@ -434,7 +443,7 @@ pub fn run(tier: Tier) -> i32 {
     // the whole thorough product costs ~10 s: both tiers run it
     let quick = false;
     let thorough = !ctx.quick();
-    ctx.set_rule("wire part: every protocol name both backends serve (25519 x {ChaChaPoly, AESGCM} x {SHA256, SHA512}; BLAKE2 / XChaChaPoly / P256 names through the fallback) x all 9 assignments of {Default, Fallback(Ring, Default), Fallback(Default, Ring)} to the two endpoints, session = handshake + transport traffic + synchronised rekeys + more traffic, stateful and stateless, with comfortably large buffers and (every 4th name) with output buffers of exactly the needed size plus {0,1,8,15,16,17} bytes: identical bytes to the all-default session and every step Ok. built-in part: DefaultResolver and RingResolver answer Some exactly for their documented primitives and what they hand out is the named primitive (name + one known answer against the reference). fallback part: complete truth table of FallbackResolver over tagged stub resolvers (16 x 16 availability masks, nesting depth 2 on either side): Some iff a member provides the primitive, and the first member's; plus every sequence of three queries of one kind on the same instance over per-choice availability masks (the answer must not depend on earlier queries)");
+    ctx.set_rule("wire part: every protocol name both backends serve (25519 x {ChaChaPoly, AESGCM} x {SHA256, SHA512}; BLAKE2 / XChaChaPoly / P256 names through the fallback) x all 9 assignments of {Default, Fallback(Ring, Default), Fallback(Default, Ring)} to the two endpoints, session = handshake + transport traffic + synchronised rekeys + more traffic, stateful and stateless, with comfortably large buffers and (every 4th name) with output buffers of exactly the needed size plus {0,1,8,15,16,17} bytes: identical bytes to the all-default session and every step Ok; every 6th name also with ephemerals generated from a scripted random source instead of fixed ones. built-in part: DefaultResolver and RingResolver answer Some exactly for their documented primitives and what they hand out is the named primitive (name + one known answer against the reference). fallback part: complete truth table of FallbackResolver over tagged stub resolvers (16 x 16 availability masks, nesting depth 2 on either side): Some iff a member provides the primitive, and the first member's; plus every sequence of three queries of one kind on the same instance over per-choice availability masks (the answer must not depend on earlier queries)");
     fallback_table(&ctx);
     builtin_table(&ctx);
     let mut names: Vec<Proto> = vec![];
@@ -461,14 +470,20 @@ pub fn run(tier: Tier) -> i32 {
                 runs.push((if (k / 4) % 2 == 0 { Mode::TT } else { Mode::SS }, Some(sl)));
             }
         }
+        let scripted_too = k % 6 == 0;
         for (m, sl) in runs {
-            let (v, n) = check_wire(p, m, sl);
+            let mut res = vec![check_wire(p, m, sl)];
+            if scripted_too && sl.is_none() {
+                res.push(check_wire_with(p, m, None, true));
+            }
+            for (v, n) in res {
             ctx.add(&ctx.evaluations, n);
             ctx.add(&ctx.nontrivial, n);
             ctx.add(&ctx.transitions, n * 30);
             ctx.add(&ctx.traces, n);
             for (sig, d, cfg, ops) in v {
                 ctx.violation(sig, d, sess::case_json(&cfg, &ops));
+            }
             }
         }
     });
